@@ -23,8 +23,12 @@ EXH_WORKER = Path(__file__).resolve().parent / "clean_exh_worker.py"
 V = "/v/ws"                       # virtual absolute path of the workspace in the model
 GEN_BOTH_SOURCES = False          # -e together with a config `exclude` key: click 8.5 lets the file win (environment, see Limits)
 
-FILE_NAMES = ["a.txt", "b.txt", "c.dat", "d.keep", "x", "y.tmp", "n.log", "f[1].txt", "z.csv"]
-DIR_NAMES = ["src", "bld", "data", "sub", "deep", "e", "out", "lib"]
+FILE_NAMES = ["a.txt", "b.txt", "c.dat", "d.keep", "x", "y.tmp", "n.log", "f[1].txt", "z.csv",
+              # names git quotes in its line-oriented output (non-ASCII, double quote, backslash) and a name with a space;
+              # Latin-1 only (the protocol writes one byte per character), no control characters (the listing is read from lines)
+              "donn\u00e9es.csv", "gr\u00f6\u00dfe.txt", "sp ace.txt", 'qu"ote.txt', "back\\slash.dat"]
+DIR_NAMES = ["src", "bld", "data", "sub", "deep", "e", "out", "lib", "d\u00e9 p\u00f4t"]
+NODE_KINDS = ["path", "path", "path", "path", "pickle", "custom", "catalog", "catalog_pickle"]   # how a declared path is wrapped
 
 
 # ---------------------------------------------------------------------------------------------
@@ -140,12 +144,48 @@ def flatten(tree: list, pre: str = "") -> tuple[list[str], list[str]]:
     return files, dirs
 
 
+CUSTOM_NODE_SRC = '''
+class JsonNode:
+    """A user-defined node class that implements the PPathNode protocol (it does not derive from any pytask class)."""
+
+    def __init__(self, path, name=""):
+        self.path = Path(path)
+        self.name = name or self.path.as_posix()
+        self.attributes = {}
+
+    @property
+    def signature(self):
+        import hashlib
+        return hashlib.sha256(self.path.as_posix().encode()).hexdigest()
+
+    def state(self):
+        return str(self.path.stat().st_mtime) if self.path.exists() else None
+
+    def load(self, is_product=False):
+        return self.path
+
+    def save(self, value):
+        self.path.write_text(str(value))
+'''
+
+
 def module_text(root_rel: str, mod_rel: str, tasks: list[dict]) -> str:
     """A task module. Node paths are given relative to the module's directory when they are below it, else as absolute
-    paths under the (substituted) workspace; declaration styles vary."""
+    paths under the (substituted) workspace; declaration styles and node classes vary: plain `Path`, `PickleNode`, a
+    user-defined PPathNode class, entries of a `DataCatalog` registered with an explicit path / PickleNode."""
     mod_dir = mod_rel.rsplit("/", 1)[0] if "/" in mod_rel else ""
-    L = ["from pathlib import Path", "from typing import Annotated", "from pytask import DirectoryNode, Product, task", "",
+    kinds = {k for t in tasks for k in t.get("depkinds", []) + t.get("prodkinds", [])}
+    L = ["from pathlib import Path", "from typing import Annotated",
+         "from pytask import DataCatalog, DirectoryNode, PickleNode, Product, task", "",
          f'R = Path("{{W}}/{root_rel}")', ""]
+    if "custom" in kinds:
+        L.append(CUSTOM_NODE_SRC)
+    cat = "cat_" + "".join(ch if ch.isalnum() else "_" for ch in mod_rel)
+    if kinds & {"catalog", "catalog_pickle"}:
+        L.append(f"{cat} = DataCatalog(name={cat!r})")
+    n_cat = [0]
+    defaulted: set[str] = set()
+    pre: list[str] = []
 
     def expr(rel: str, style: int) -> str:
         if style == 0 and (mod_dir == "" or rel.startswith(mod_dir + "/")):
@@ -153,26 +193,53 @@ def module_text(root_rel: str, mod_rel: str, tasks: list[dict]) -> str:
             return f"Path({inner!r})"
         return "R" + "".join(f" / {c!r}" for c in rel.split("/"))
 
+    def absexpr(rel: str) -> str:
+        return "R" + "".join(f" / {c!r}" for c in rel.split("/"))
+
+    def arg(name: str, rel: str, style: int, kind: str, product: bool) -> str:
+        prod = ", Product" if product else ""
+        if kind == "pickle":
+            return f"{name}: Annotated[Path, PickleNode(path={absexpr(rel)}){prod}]"
+        if kind == "custom":
+            return f"{name}: Annotated[Path, JsonNode(path={absexpr(rel)}){prod}]"
+        if kind in ("catalog", "catalog_pickle"):
+            key = f"k{n_cat[0]}"
+            n_cat[0] += 1
+            val = absexpr(rel) if kind == "catalog" else f"PickleNode(path={absexpr(rel)})"
+            pre.append(f"{cat}.add({key!r}, {val})")
+            return f"{name}: Annotated[Path, {cat}[{key!r}]{prod}]"
+        defaulted.add(name)
+        if product:
+            return f"{name}: Annotated[Path, Product] = {expr(rel, style)}"
+        return f"{name}: Path = {expr(rel, style)}"
+
     for t in tasks:
         args = []
+        pre.clear()
+        defaulted.clear()
+        dk = t.get("depkinds", [])
+        pkd = t.get("prodkinds", [])
         for i, dn in enumerate(t.get("dirdeps", [])):
             args.append(f"dd{i}: Annotated[list[Path], DirectoryNode(root_dir={expr(dn[0], 1)}, pattern={dn[1]!r})]")
         for i, dn in enumerate(t.get("dirprods", [])):
             args.append(f"dp{i}: Annotated[Path, DirectoryNode(root_dir={expr(dn[0], 1)}, pattern={dn[1]!r}), Product]")
         for i, d in enumerate(t["deps"]):
-            args.append(f"d{i}: Path = {expr(d, t['style'][i % len(t['style'])])}")
+            args.append(arg(f"d{i}", d, t['style'][i % len(t['style'])], dk[i] if i < len(dk) else "path", False))
         prods = t["prods"]
         pk = t["prodstyle"]
         if prods:
             if pk == 0:
                 for i, p in enumerate(prods):
-                    args.append(f"p{i}: Annotated[Path, Product] = {expr(p, t['style'][i % len(t['style'])])}")
+                    args.append(arg(f"p{i}", p, t['style'][i % len(t['style'])], pkd[i] if i < len(pkd) else "path", True))
             elif pk == 1 and len(prods) == 1:
                 args.append(f"produces=({expr(prods[0], 0)})")
             elif pk == 2:
                 args.append("produces={" + ", ".join(f"'k{i}': {expr(p, 1)}" for i, p in enumerate(prods)) + "}")
             else:
                 args.append("produces=[" + ", ".join(expr(p, 0) for p in prods) + "]")
+        L += pre
+        # arguments without default must precede those with a default
+        args.sort(key=lambda a: a.split(":", 1)[0] in defaulted or a.startswith("produces="))
         L.append(f"def task_{t['name']}({', '.join(args)}):")
         L.append("    raise RuntimeError('clean must never execute a task')")
         L.append("")
@@ -239,7 +306,7 @@ def gen_case(rng, cid: str, stream: str = "cli") -> dict:
     modules: dict[str, dict] = {}
     n_mod = rng.choice([0, 1, 1, 2, 3])
     prod_pool_used: set[str] = set()
-    place_dirs = [""] + [d for d in dirs if not any(c.startswith(".") for c in d.split("/"))]
+    place_dirs = [""] + [d for d in dirs if not any(c.startswith(".") for c in d.split("/")) and d.isascii() and " " not in d]
     for mi in range(n_mod):
         md = rng.choice(place_dirs)
         mod_rel = f"{md}/task_m{mi}.py" if md else f"task_m{mi}.py"
@@ -264,7 +331,8 @@ def gen_case(rng, cid: str, stream: str = "cli") -> dict:
             deps = [d for d in deps if ok(d)]
             prods = [p for p in prods if ok(p)]
             t = {"name": f"m{mi}t{ti}", "deps": deps, "prods": prods, "style": [rng.randint(0, 1) for _ in range(3)],
-                 "prodstyle": rng.randint(0, 3)}
+                 "prodstyle": rng.randint(0, 3),
+                 "depkinds": [rng.choice(NODE_KINDS) for _ in deps], "prodkinds": [rng.choice(NODE_KINDS) for _ in prods]}
             tasks.append(t)
         modules[mod_rel] = {"tasks": tasks}
     dirnodes = []
